@@ -112,7 +112,9 @@ def simulate(
 
     # init state matrix with nshift
     if init is None:
-        init = [0, 0, 1]
+        if not ("density" in options or "equilibrium" in options):
+            init = [0, 0, 1]
+        # else: StateMatrix starts from the given equilibrium
     else:
         LOGGER.info(f"Non-default initialization: {init}")
 
